@@ -79,6 +79,21 @@ fn decode_fixed<const KIND: u8, const N: usize>() {
         8 => if N == 4 && (be(0) & 0x7fff_ffff) != 0 { Class::Frame(8) } else { Class::ConnError },
         2 => if sid == 0 || N != 5 { Class::ConnError } else if (be(0) & 0x7fff_ffff) == sid { Class::StreamError } else { Class::Frame(2) },
         7 => if N >= 8 { Class::Frame(7) } else { Class::ConnError },
+        0 => {
+            // DATA: stream 0 is a connection error; PADDED with pad length >= payload is too
+            let padded = flags & 0x8 != 0;
+            if sid == 0 || (padded && (N == 0 || payload[0] as usize >= N)) { Class::ConnError } else { Class::Frame(0) }
+        }
+        4 => {
+            // SETTINGS: stream 0 only; ACK must be empty; length multiple of 6; value ranges
+            let ack = flags & 1 != 0;
+            let ok = if ack { N == 0 } else if N % 6 != 0 { false } else if N == 0 { true } else {
+                let id = ((payload[0] as u16) << 8) | payload[1] as u16;
+                let v = be(2);
+                match id { 2 | 8 => v <= 1, 4 => v <= 0x7fff_ffff, 5 => v >= 16_384 && v <= 16_777_215, _ => true }
+            };
+            if sid == 0 && ok { Class::Frame(4) } else { Class::ConnError }
+        }
         9 => Class::ConnError, // CONTINUATION without a preceding HEADERS / PUSH_PROMISE
         _ => Class::Ignored,   // unknown frame types
     };
@@ -101,3 +116,8 @@ pub fn c09_decode_goaway_8() { decode_fixed::<7, 8>() }
 pub fn c09_decode_goaway_7() { decode_fixed::<7, 7>() }
 pub fn c09_decode_continuation_orphan() { decode_fixed::<9, 4>() }
 pub fn c09_decode_unknown_type() { decode_fixed::<0x42, 6>() }
+pub fn c09_decode_data_4() { decode_fixed::<0, 4>() }
+pub fn c09_decode_data_0() { decode_fixed::<0, 0>() }
+pub fn c09_decode_settings_6() { decode_fixed::<4, 6>() }
+pub fn c09_decode_settings_5() { decode_fixed::<4, 5>() }
+pub fn c09_decode_settings_0() { decode_fixed::<4, 0>() }
